@@ -88,6 +88,71 @@ def lean_str(s):
     return '"' + s.replace("\\", "\\\\").replace('"', '\\"').replace("\n", "\\n").replace("\r", "\\r") + '"'
 
 
+def loop_bodies(src):
+    """(offset, body) of every `loop { ... }` (balanced braces)"""
+    out = []
+    for m in re.finditer(r"\bloop\s*\{", src):
+        i = m.end()
+        depth = 1
+        while i < len(src) and depth:
+            if src[i] == "{":
+                depth += 1
+            elif src[i] == "}":
+                depth -= 1
+            i += 1
+        if depth:
+            raise ExtractError("unbalanced braces after `loop {`")
+        out.append((m.start(), src[m.end():i - 1]))
+    return out
+
+
+def call_arg(body, pos):
+    depth = 1
+    i = pos
+    while i < len(body) and depth:
+        if body[i] == "(":
+            depth += 1
+        elif body[i] == ")":
+            depth -= 1
+        i += 1
+    return body[pos:i - 1]
+
+
+HAND_OVER = re.compile(r"\.\s*(write_all|write_data_frame|send_data|write|write_vectored|write_buf|write_all_buf|try_write)\s*\(")
+HAND_OVER_KIND = {"write_all": "writeAll", "write": "writeOnce", "send_data": "channel", "write_data_frame": "frame"}
+
+
+def relay_sites(rel, expected):
+    """the relay loops of a file: `loop { n = <source>.read(&mut buf) ...; <sink>.<hand-over>(<slice of buf>) }`.
+    For each: which hand-over call, and which part of the buffer it is given."""
+    src = strip_comments(read(rel))
+    sites = []
+    for start, body in loop_bodies(src):
+        if not re.search(r"\.\s*read\s*\(\s*&mut\s+buf\s*\)", body):
+            continue
+        calls = [(m.group(1), call_arg(body, m.end())) for m in HAND_OVER.finditer(body)]
+        if len(calls) != 1:
+            raise ExtractError(f"{rel}: relay loop at offset {start}: expected exactly one hand-over call, "
+                               f"found {[c[0] for c in calls]}")
+        meth, arg = calls[0]
+        if meth not in HAND_OVER_KIND:
+            raise ExtractError(f"{rel}: relay loop at offset {start}: hand-over by `{meth}` is not modelled")
+        a = re.sub(r"\s+", "", arg)
+        if re.search(r"buf\[\.\.n\]", a) and not re.search(r"buf\[\.\.n\]\[|buf\[\.\.n[-+]", a):
+            sl = "prefixN"
+        elif re.search(r"(&buf\b(?!\[)|buf\[\.\.\]|buf\.clone\(\)|buf\.to_vec\(\))", a):
+            sl = "whole"
+        else:
+            sl = "other"
+        # the count read must be the `n` of this iteration: `Ok(n) => n` / `let n = ...read(&mut buf)`
+        if not re.search(r"Ok\(n\)\s*=>|let\s+n\s*=", body):
+            raise ExtractError(f"{rel}: relay loop at offset {start}: the byte count of the read is not bound to `n`")
+        sites.append((rel, HAND_OVER_KIND[meth], sl))
+    if len(sites) != expected:
+        raise ExtractError(f"{rel}: expected {expected} relay loops, found {len(sites)}")
+    return sites
+
+
 def extract():
     g = {}
     # ---- protocol/frame.rs -------------------------------------------------------
@@ -225,6 +290,10 @@ def extract():
     http = strip_comments(read("src/client/http_proxy.rs"))
     g["httpMaxHeader"] = rust_int_expr(one(r"const MAX_HEADER_SIZE\s*:\s*usize\s*=\s*([^;]+);", http,
                                            "MAX_HEADER_SIZE").group(1), "MAX_HEADER_SIZE")
+
+    # ---- relay loops (server target relay, SOCKS5 and HTTP front-ends) ---------------------
+    g["relaySites"] = (relay_sites("src/server/handler.rs", 2) + relay_sites("src/client/socks5.rs", 2)
+                       + relay_sites("src/client/http_proxy.rs", 2))
     return g
 
 
@@ -283,6 +352,32 @@ def render(g):
     a(f"def udpMaxServer : Nat := {g['udpMaxServer']}")
     a(f"def udpMaxClient : Nat := {g['udpMaxClient']}")
     a(f"def httpMaxHeader : Nat := {g['httpMaxHeader']}")
+    a("")
+    a("/-- the call that hands a chunk to the sink of a relay loop -/")
+    a("inductive WriteKind where")
+    a("  | writeAll   -- `AsyncWriteExt::write_all`: calls `write` until everything is taken")
+    a("  | writeOnce  -- a single `AsyncWriteExt::write`, its result not acted on")
+    a("  | channel    -- `Stream::send_data`: an unbounded channel takes the whole chunk")
+    a("  | frame      -- `Session::write_data_frame`: the whole chunk becomes PSH frames")
+    a("  deriving DecidableEq, Repr")
+    a("")
+    a("/-- the part of the buffer handed over after a read of `n` bytes -/")
+    a("inductive SliceKind where")
+    a("  | prefixN    -- `buf[..n]`")
+    a("  | whole      -- the whole buffer, whatever `n` was")
+    a("  | other")
+    a("  deriving DecidableEq, Repr")
+    a("")
+    a("structure RelaySite where")
+    a("  file : String")
+    a("  write : WriteKind")
+    a("  slice : SliceKind")
+    a("  deriving DecidableEq, Repr")
+    a("")
+    a("/-- every `loop { n = source.read(&mut buf); sink.<hand-over>(<slice>) }` of the relay code, in source order -/")
+    a("def relaySites : List RelaySite := [")
+    a(",\n".join(f"  ⟨{lean_str(f)}, .{w}, .{sl}⟩" for f, w, sl in g["relaySites"]))
+    a("]")
     a("")
     a("end AnyTLS.Gen")
     return "\n".join(L) + "\n"
